@@ -11,6 +11,7 @@ MODELS = {
     2: dict(n=4, c=[2, 0, 4, 0], a=[-2, 0, -4, -2], x0=[1, 3, 5, 7], ext=[[], [], [], []], kind=[1, 1, 1, 1],
             edges=[dict(s=1, t=3, w=2, lag=0), dict(s=3, t=2, w=4, lag=0), dict(s=2, t=4, w=6, lag=0), dict(s=4, t=1, w=-2, lag=0)]),
 }
+MODELS[3] = copy.deepcopy(MODELS[1]); MODELS[3]['edges'][0]['lag'] = 2        # first edge delayed: its delay can be swept
 STEPS = 4
 
 
@@ -25,6 +26,8 @@ def adapt(m, keys, vals):
             m['edges'][0]['w'] = v
         elif k == 4:
             m['a'][0] = v; m['a'][1] = v
+        elif k == 5:
+            m['edges'][0]['lag'] = int(abs(v))
     return m
 
 
@@ -41,6 +44,9 @@ def param_map(m, keys):
             pm[name] = {'edges': [(f"n{e['s']}/lin1/x", f"n{e['t']}/lin1/u")], 'vars': ['weight']}
         elif k == 4:
             pm[name] = {'nodes': ['n1', 'n2'], 'vars': ['lin1/a']}
+        elif k == 5:
+            e = m['edges'][0]
+            pm[name] = {'edges': [(f"n{e['s']}/lin1/x", f"n{e['t']}/lin1/u")], 'vars': ['delay']}
     return pm
 
 
@@ -52,7 +58,7 @@ def job(case):
     m = copy.deepcopy(MODELS[cs['model']])
     if cs['inp']:
         m['ext'][1] = [2, 4, 8, 16]
-    grid = {f'p{i + 1}': [float(x) for x in v] for i, v in enumerate(cs['vals'])}
+    grid = {f'p{i + 1}': [float(abs(x)) if cs['keys'][i] == 5 else float(x) for x in v] for i, v in enumerate(cs['vals'])}
     if cs['index']:
         grid = pd.DataFrame(grid, index=list(cs['index']))
     circ = linmodel.build(m, name='net')
@@ -89,7 +95,7 @@ def run(ctx):
     ctx.assumptions += ['the oracle for the time series is a separate run() of the adapted model (itself checked against Solver.tla in C03)',
                         'linear integer models, Euler, dt = 1: exact comparison']
     c = tlc.cfg(constants=dict(Dev=set()), invariants=['LabelsInjective', 'EveryRowOnce', 'LabelKeepsItsRow', 'Export'])
-    r = tlc.run_tlc('Grid', c, workers=4, defs=dict(Cases='GridCases({1, 2})'), mc_extends=['GridCases'])
+    r = tlc.run_tlc('Grid', c, workers=4, defs=dict(Cases='GridCases({1, 2}) \\cup EdgeAttrCases'), mc_extends=['GridCases'])
     ctx.add_tlc('design', r, 'P (linearize + label-based loop) satisfies M')
     if not r['ok']:
         ctx.spec_violation('design', r)
@@ -115,7 +121,8 @@ def judge(ctx, cse, o):
         ctx.violation(dict(kind='conformance', what='grid_search raised', case=cs, observed=o))
         return
     # 1. the returned table: labels and values as the specification's table
-    exp_table = [dict(label=f"net_{t['label']}", vals=[float(v) for v in t['vals']]) for t in cse['table']]
+    exp_table = [dict(label=f"net_{t['label']}", vals=[float(abs(v)) if cs['keys'][i] == 5 else float(v) for i, v in enumerate(t['vals'])])
+                 for t in cse['table']]
     if sorted(o['table'], key=lambda t: t['label']) != sorted(exp_table, key=lambda t: t['label']):
         ctx.violation(dict(kind='conformance', what='returned parameter table differs from the grid', case=cs, observed=o['table'], expected=exp_table))
         return
